@@ -84,11 +84,23 @@ def d1(ctx, prog):
         ctx.undecided('C10-D1', key, f'provenance analysis aborted: {e}', f.where())
     # interruption and width
     brk = [n for n in ast.walk(f.node) if isinstance(n, ast.If) and any(isinstance(b, ast.Break) for b in n.body)]
-    ok = len(brk) == 1 and norm(brk[0].test).replace(' ', '') in ('current_round==interrupt_after_round', 'interrupt_after_round==current_round')
-    # the break must come after the words of the round were written (last statement of the round loop)
+    # the break must come after the words of the round were written (last statement of the round loop) and fire first at r = target
     loops = [l for l in ast.walk(f.node) if isinstance(l, ast.For) and brk and brk[0] in l.body]
-    ok = ok and len(loops) == 1 and loops[0].body[-1] is brk[0]
-    ctx.check(ok, 'C10-D1', f'{f.key}::interrupt', 'the round loop does not stop right after writing round `interrupt_after_round`', 'stops after round interrupt_after_round (inclusive)', f.where())
+    key_ = f'{f.key}::interrupt'
+    if len(brk) == 1 and len(loops) == 1 and isinstance(loops[0].target, ast.Name):
+        from .c15 import ceval, Undecidable
+        rv = loops[0].target.id
+        try:
+            first_true = {}
+            for t_ in range(16):
+                first_true[t_] = next((r_ for r_ in range(16) if ceval(brk[0].test, {rv: r_, 'interrupt_after_round': t_})), None)
+            good_ = all(first_true[t_] == t_ for t_ in range(16)) and loops[0].body[-1] is brk[0]
+            ctx.check(good_, 'C10-D1', key_, f'the round loop does not stop right after writing round `interrupt_after_round` (first stop per target: {first_true}, break last in the loop: {loops[0].body[-1] is brk[0]})',
+                      'stops after round interrupt_after_round (inclusive)', f.where())
+        except Undecidable as e_:
+            ctx.undecided('C10-D1', key_, f'interruption test not evaluable: {e_}', f.where())
+    else:
+        ctx.undecided('C10-D1', key_, 'interruption of the round loop not recognised', f.where())
     allocs = [s for s in ast.walk(f.node) if isinstance(s, ast.Assign) and norm(s.targets[0]) == 'output_key']
     ok = len(allocs) == 1 and isinstance(allocs[0].value, ast.Call) and isinstance(allocs[0].value.args[0], ast.Tuple) and \
         astutil.affine(allocs[0].value.args[0].elts[1]) == {'interrupt_after_round': 8, '': 8}
